@@ -41,6 +41,7 @@ SYMS = {
     "rst": ("read", "request"),       # request received, ECONNRESET while reading the status line
     "eof": ("read", "request"),       # request received, orderly EOF instead of a response
     "bad": ("read", "request"),       # request received, garbage status line
+    "bto": ("read", "request"),       # 200 + Connection: close + Content-Length received, then the body stalls
     "oth": ("other", "request"),      # request received, TLS-layer error while reading (ssl.SSLError)
     "tls": ("other", "tls"),          # tunnel only: handshake with the destination fails (nothing sent to it)
     "500": ("status", "request"),     # keep-alive 500 (forcelisted when status_forcelist={500})
@@ -51,7 +52,7 @@ SYMS = {
 RA_SECONDS = 7
 RA_DATE_AHEAD = 9
 STATUS_OF = {"500": 500, "503ra": 503, "429d": 429, "418ra": 418}
-FAULT_NAME = {"rto": "recv-timeout", "rst": "recv-reset", "eof": "recv-eof", "bad": "recv-garbage",
+FAULT_NAME = {"bto": "recv-body-timeout", "rto": "recv-timeout", "rst": "recv-reset", "eof": "recv-eof", "bad": "recv-garbage",
               "oth": "recv-tls-error", "tls": "handshake-error", "cref": "connect-refused",
               "cto": "connect-timeout"}
 RETRY_AFTER_STATUSES = (413, 429, 503)  # from the property statement
@@ -92,6 +93,7 @@ class ScriptServer(Server):
         self.did = []  # ledger: dicts {kind: connect-fail|tls-fail|answer, sym, ...} in order
         self.injected = {}  # ledger index -> exception instance injected (identity checked in clause 6)
         self.fresh_dial_pending = False  # a dial succeeded and no destination request arrived on it yet
+        self.blocked = None  # index of a connect/tls symbol that met an attempt which did not dial
 
     def _peek(self):
         return self.script[self.pos] if self.pos < len(self.script) else None
@@ -117,6 +119,10 @@ class ScriptServer(Server):
             raise e
         return super().on_tls(sock, info)
 
+    def on_request_resume(self, sock, req, idx, fresh):
+        self.fresh_dial_pending = fresh
+        return self.on_request(sock, req, idx)
+
     def on_request(self, sock, req, idx):
         s = self._peek()
         fresh = self.fresh_dial_pending
@@ -127,8 +133,12 @@ class ScriptServer(Server):
             return [response(200, b"tag-%d" % idx)]
         where = SYMS[s][1]
         if where != "request":
-            # a connect/tls answer was scheduled for an attempt that did not dial: enumeration bug
-            raise HarnessError(f"symbol {s} pending at a request on a reused connection; script={self.script}")
+            # a connect/tls answer is scheduled for an attempt that does not dial (keep-alive reuse): there
+            # is no such point in this execution; the script is not a history of this system. Tell the
+            # explorer (it discards the run) and let the execution end.
+            self.blocked = self.pos
+            del self.script[self.pos:]
+            return self.on_request_resume(sock, req, idx, fresh)
         self.pos += 1
         rec = {"kind": "answer", "sym": s, "idx": idx, "sid": sock.sid, "fresh": fresh}
         k = len(self.did)
@@ -145,6 +155,10 @@ class ScriptServer(Server):
             return [EOF]
         if s == "bad":
             return [b"garbage status line\r\n\r\n", EOF]
+        if s == "bto":
+            e = socket.timeout("timed out")
+            self.injected[k] = e
+            return [b"HTTP/1.1 200 OK\r\nConnection: close\r\nContent-Length: 10\r\n\r\nabc", e]
         if s == "oth":
             e = ssl.SSLError(1, "[SSL] bad record mac (injected)")
             self.injected[k] = e
@@ -210,16 +224,8 @@ def _snap(r):
     """deep, order-insensitive snapshot of a Retry (or of an int / None / False spelling)"""
     if not isinstance(r, Retry):
         return ("plain", repr(r))
-    d = {}
-    for k, v in vars(r).items():
-        if isinstance(v, (set, frozenset)):
-            v = ("set", tuple(sorted(map(repr, v))))
-        elif isinstance(v, (list, tuple)):
-            v = (type(v).__name__, tuple(map(repr, v)))
-        else:
-            v = repr(v)
-        d[k] = v
-    return tuple(sorted(d.items()))
+    d = {k: (set(v) if isinstance(v, set) else list(v) if isinstance(v, list) else v) for k, v in vars(r).items()}
+    return d, tuple(map(type, d.values()))
 
 
 # ------------------------------------------------------------------ one execution
@@ -231,6 +237,20 @@ def _pin():
     if not _pinned:
         _uretry.random = _PinnedRandom()  # jitter source, rebinding inside the harness process only
         _pinned = True
+
+
+_CTX = None
+
+
+def _tls_context():
+    """one default client context per process (building one per connection costs 15 % of a
+    tunnelled run; it is an ordinary caller-supplied setting and the stub TLS layer only reads
+    verify_mode / check_hostname from it)"""
+    global _CTX
+    if _CTX is None:
+        from urllib3.util.ssl_ import create_urllib3_context
+        _CTX = create_urllib3_context()
+    return _CTX
 
 
 def execute(case):
@@ -262,7 +282,7 @@ def execute(case):
         if pool == "direct":
             pm = urllib3.PoolManager(**mkw)
         else:
-            pm = urllib3.ProxyManager("http://proxy.test:3128", **mkw)
+            pm = urllib3.ProxyManager("http://proxy.test:3128", ssl_context=_tls_context(), **mkw)
         url = DEST[pool]
         body = None if method.upper() == "GET" else b"payload"
         marks = []  # (log position, ledger length) sampled at every sleep
@@ -396,12 +416,14 @@ def judge(case, obs):
     left = dict(eff["budgets"])
     left["total"] = None if total is None else (0 if total is False else total)
     exhausted_after = None  # index of the first attempt whose charge overdraws some budget
+    charged_to = {b: [] for b in left}
     for i, a in enumerate(att):
         if a["cat"] == "ok":
             continue
         charged = ["total"] + ([a["cat"]] if a["cat"] in left else [])
         over = []
         for b in charged:
+            charged_to[b].append(a["what"])
             if left[b] is not None:
                 left[b] -= 1
                 if left[b] < 0:
@@ -409,8 +431,11 @@ def judge(case, obs):
         if over and exhausted_after is None:
             exhausted_after = i
         if over and i < n - 1 and eff["total"] is not False:
-            V.append(("budget-exceeded", {"budget": over[0] if "total" not in over else "total", "pool": pool,
-                                          "fault": a["what"]},
+            ob = "total" if "total" in over else over[0]
+            # `fault`: the kinds of outcome charged against that budget (the ledger cannot know which of
+            # them the implementation filed elsewhere), e.g. "recv-reset" or "recv-reset+recv-timeout"
+            V.append(("budget-exceeded", {"budget": ob, "pool": pool,
+                                          "fault": "+".join(sorted(set(charged_to[ob])))},
                       {"attempts": [x["what"] for x in att], "retried_after_attempt": i, "overdrawn": over},
                       "no further attempt once a budget is used up"))
             break
@@ -557,7 +582,7 @@ def judge(case, obs):
     cats = ",".join(a["cat"][0] + ("" if a["sent"] or a["cat"] == "connect" else "'") for a in att)
     outcome = f"{cats}|{end}"
     implicit = bool(att) and srv.did[-1].get("implicit", False)
-    info = {"n": n, "consumed": srv.pos, "continued": implicit and srv.pos == len(srv.script),
+    info = {"n": n, "consumed": srv.pos, "blocked": srv.blocked, "continued": implicit and srv.pos == len(srv.script),
             "next_dials": bool(implicit and srv.did[-1]["fresh"]),
             "tight": (sorted(b for b, v in left.items() if v is not None and v < 0)
                       if exhausted_after == n - 1 and end.startswith(("max-retry", "last-response")) else []),
@@ -605,67 +630,135 @@ def _missing(need_all, need_any, cats_present):
     return m
 
 
+SYM_STATUS_HAS_RA = {"500": False, "503ra": True, "429d": True, "418ra": True}
+
+
+def oracle_forbids_continuation(eff, method, script):
+    """True iff, by clauses 1-3 alone, NO further attempt may follow the attempts described by
+    `script` (used only to avoid executing extensions of non-canonical prefixes: an
+    implementation that went on regardless is caught at the canonical configuration of that
+    prefix, where the prefix itself is executed and judged)."""
+    if not script:
+        return False
+    if eff["total"] is False:
+        return True
+    left = dict(eff["budgets"])
+    left["total"] = eff["total"]
+    allowed = eff["allowed"]
+    method_ok = (not allowed) or (method.upper() in allowed)
+    for s in script:
+        cat = SYMS[s][0]
+        for b in ("total", cat):
+            if left.get(b) is not None:
+                left[b] -= 1
+                if left[b] < 0:
+                    return True
+        if cat == "status":
+            st = STATUS_OF[s]
+            lic = st in eff["forcelist"] or (st in RETRY_AFTER_STATUSES and SYM_STATUS_HAS_RA[s] and eff["respect"])
+            if not lic:
+                return True
+        if not method_ok and cat in ("read", "status"):
+            return True
+    return False
+
+
 def explore_task(task):
-    """DFS over the script tree of one (configuration, method, pool): a script is extended
-    only if the execution consumed it completely and urllib3 went on to make a further
-    attempt (which the exhausted script answered with 200); the new symbol replaces that
-    200. Connect/TLS symbols are offered only if that further attempt dialled."""
+    """Enumerate every *valid* script (length <= L) that is canonical for this (configuration,
+    method, pool) and judge its execution.
+
+    valid: each symbol is consumed, i.e. urllib3 really made a further attempt after the prefix
+    (everything after the point where it stopped sending is unobservable, so such scripts are
+    not distinct histories) and a connect/TLS symbol meets an attempt that really dials.
+    Validity is prefix-closed and is learned from the executions themselves: a run that leaves
+    symbols unconsumed is discarded and marks the prefix at which it got stuck as `stopped`
+    (no extension is valid) or `nodial` (no connect/TLS symbol is valid there). Non-canonical
+    prefixes are never executed for their own sake."""
     acc = Acc()
     cfg, method, pool, alphabet, L = task["cfg"], task["method"], task["pool"], task["alphabet"], task["L"]
     collapse = task.get("collapse", True)
     need_all, need_any = needs(cfg, method) if collapse else (set(), set())
+    alphabet = [s for s in alphabet if s != "tls" or pool == "tunnelling-proxy"]
+    stopped, nodial = set(), set()
+    eff = effective(cfg)
+
+    def known_invalid(script):
+        for k in range(len(script)):
+            pre = tuple(script[:k])
+            if pre in stopped:
+                return True
+            if SYMS[script[k]][1] != "request" and pre in nodial:
+                return True
+        return False
+
     stack = [[]]
     while stack:
         script = stack.pop()
-        case = {"cfg": cfg, "method": method, "pool": pool, "script": script}
-        V, outcome, info = run_case(case)
-        if info["consumed"] != len(script):
-            raise HarnessError(f"DFS scheduled a script that was not consumed: {case}")
+        if known_invalid(script):
+            continue
         present = {SYMS[s][0] for s in script}
-        canonical = _missing(need_all, need_any, present) == 0
-        acc.n += 1
-        acc.counters["block:" + task["block"]] += 1
-        acc.counters["canonical" if canonical else "non-canonical-ancestor"] += 1
-        acc.counters["attempts"] += info["n"]
-        acc.counters["len:%d" % len(script)] += 1
-        acc.outcomes[outcome] += 1
-        for e in info["either"]:
-            acc.counters["either:" + e] += 1
-        acc.counters["sleeps:backoff"] += info["n_backoff_sleeps"]
-        acc.counters["sleeps:retry-after"] += info["n_ra_sleeps"]
-        acc.counters["end:" + info["end"]] += 1
-        for b in info["tight"]:
-            acc.counters["tight:" + b] += 1  # the loop ran until exactly this budget was used up
-        for s in script:
-            acc.counters["sym:" + s] += 1
-        acc.counters["pool:" + pool] += 1
-        acc.counters["method:" + method] += 1
-        if info["n"] >= 2:
-            acc.counters["retried"] += 1
-            acc.distinct.add(digest((cfg, method, pool, script)))
-            if len(script) >= 2:
-                acc.sample({"cfg": cfg, "method": method, "pool": pool, "script": script,
-                            "attempts": info["attempts"], "sleeps": info["sleeps"], "result": info["result"]}, cap=1)
-        for clause, sig, observed, expected in V:
-            acc.violation(clause, sig, case, observed=observed, expected=expected)
-        if info["continued"] and len(script) < L:
+        if _missing(need_all, need_any, present) == 0:
+            case = {"cfg": cfg, "method": method, "pool": pool, "script": script}
+            obs = execute(case)
+            srv = obs["srv"]
+            if srv.pos < len(script):
+                # stuck at symbol number srv.pos: not a history of this system; learn why and discard
+                (nodial if srv.blocked is not None else stopped).add(tuple(script[:srv.pos]))
+                acc.counters["discarded-speculative-runs"] += 1
+                continue
+            V, outcome, info = judge(case, obs)
+            _count(acc, task, case, V, outcome, info)
+            if not info["continued"]:
+                stopped.add(tuple(script))
+                continue
+            if not info["next_dials"]:
+                nodial.add(tuple(script))
+        elif oracle_forbids_continuation(eff, method, script):
+            acc.counters["subtrees-cut-by-oracle-at-noncanonical-prefix"] += 1
+            continue
+        if len(script) < L:
             for s in reversed(alphabet):
-                cat, where = SYMS[s]
-                if where == "connect" and not info["next_dials"]:
-                    continue
-                if where == "tls" and not (info["next_dials"] and pool == "tunnelling-proxy"):
-                    continue
-                if _missing(need_all, need_any, present | {cat}) > L - (len(script) + 1):
+                if _missing(need_all, need_any, present | {SYMS[s][0]}) > L - (len(script) + 1):
                     continue  # no descendant can become canonical for this configuration
                 stack.append(script + [s])
     return acc
 
 
+def _count(acc, task, case, V, outcome, info):
+    script, pool, method = case["script"], case["pool"], case["method"]
+    c = acc.counters
+    acc.n += 1
+    c["block:" + task["block"]] += 1
+    c["attempts"] += info["n"]
+    c["len:%d" % len(script)] += 1
+    acc.outcomes[outcome] += 1
+    for e in info["either"]:
+        c["either:" + e] += 1
+    c["sleeps:backoff"] += info["n_backoff_sleeps"]
+    c["sleeps:retry-after"] += info["n_ra_sleeps"]
+    c["end:" + info["end"]] += 1
+    for b in info["tight"]:
+        c["tight:" + b] += 1  # the loop ran until exactly this budget was used up
+    for s in script:
+        c["sym:" + s] += 1
+    c["pool:" + pool] += 1
+    c["method:" + method] += 1
+    if info["n"] >= 2:
+        c["retried"] += 1
+        acc.distinct.add(digest((case["cfg"], method, pool, script)))
+        if len(script) >= 2:
+            acc.sample({"cfg": case["cfg"], "method": method, "pool": pool, "script": script,
+                        "attempts": info["attempts"], "sleeps": info["sleeps"], "result": info["result"]}, cap=1)
+    for clause, sig, observed, expected in V:
+        acc.violation(clause, sig, case, observed=observed, expected=expected)
+
+
 # ------------------------------------------------------------------ the enumerated space
-FULL = ["cref", "cto", "rto", "rst", "eof", "bad", "oth", "tls", "500", "503ra", "429d", "418ra"]
+FULL = ["cref", "cto", "rto", "rst", "eof", "bad", "bto", "oth", "tls", "500", "503ra", "429d", "418ra"]
 CORE = ["cref", "rto", "rst", "500", "oth"]          # one symbol per category (+ both read kinds that are
 #                                                       classified by different code paths)
 SLEEPY = ["cref", "rst", "500", "503ra", "429d", "418ra"]
+XALPHA = ["cref", "rto", "rst", "eof", "bto", "oth", "tls", "500", "503ra", "429d"]
 TOTALS = (False, 0, 1, 2, None)
 BUDGET = (None, 0, 1)
 GATES_ALL = [(m, a) for a in ("default", "all", "post") for m in ("GET", "POST", "PUT", "post")]
@@ -711,7 +804,7 @@ def tasks_for(thorough):
     for total in (None, 5):
         for bo in BACKOFFS:
             for resp in (True, False):
-                for fl in ([], [500]):
+                for fl in ([], [500], [500, 503]):  # 503 forcelisted: retried even with the respect flag off
                     for pool in POOLS:
                         for m in ("GET", "POST"):
                             add("C", make_cfg(total, allowed="all", forcelist=fl, respect=resp, backoff=bo),
@@ -732,7 +825,7 @@ def tasks_for(thorough):
         for b in budgets:
             for m in ("GET", "POST"):
                 for pool in POOLS:
-                    add("X", make_cfg(total, *b, forcelist=[500], backoff=(1, 120, 0.5)), m, pool, FULL, LX,
+                    add("X", make_cfg(total, *b, forcelist=[500], backoff=(1, 120, 0.5)), m, pool, XALPHA, LX,
                         collapse=False)
     return T
 
@@ -775,9 +868,9 @@ def run(ctx):
                  "urllib3 stopped sending is unobservable), connect/TLS symbols only where that attempt dials. Blocks: "
                  "A total x connect x read x status x other x 4 method/allowed gates x 3 pools, scripts over "
                  f"{CORE} to the deep bound; B the same budget product x 12 gates x forcelist x raise_on_status x respect x "
-                 f"3 pools over the full alphabet {FULL} to the shallow bound; C 3 backoff triples x respect x forcelist x "
+                 f"3 pools over the full alphabet {FULL} to the shallow bound; C 3 backoff triples x respect x forcelist (none | 500 | 500+503) x "
                  "total{None,5} x 3 pools x {GET,POST} over the sleep alphabet; D int/False/default/pool-level spellings; "
-                 "X the uncollapsed budget product over the full alphabet (short scripts). In A and B a policy is paired "
+                 f"X the uncollapsed budget product x {{GET,POST}} x 3 pools over {XALPHA} (short scripts). In A and B a policy is paired "
                  "only with scripts in which every knob it sets away from the representative can matter (a non-None "
                  "category budget needs an outcome of that category; forcelist/raise_on_status/respect need a status; a "
                  "method/allowed gate other than GET/default needs a read error or a status) — ancestors needed to reach "
